@@ -370,8 +370,43 @@ def r13d(ctx: Context) -> None:
         raise AnalysisError(f"only {api_calls} API calls of main found")
 
 
+def r13e(ctx: Context) -> None:
+    """No other object that lives across documents accumulates per-document state."""
+    from sa.state import global_writes
+
+    prog = ctx.prog
+    rule = ctx.rule("R13e", "extensions, parser properties and module globals hold no per-document state", 8)
+    for func, node, name in global_writes(prog):
+        rule.fail(f"{func.short}: module global {name}", where(func, node), f"{func.short} writes the module-level name '{name}' at run time: its value survives from one document to the next")
+    rule.ok("module globals", "no function of the package writes a module-level name")
+    ext_base = prog.cls("pymarkdown.extension_manager.parser_extension.ParserExtension")
+    for cls in sorted(ext_base.all_subclasses(), key=lambda c: c.qualname):
+        offenders = []
+        for method in cls.methods.values():
+            if method.name in ("__init__", "apply_configuration"):
+                continue
+            eff = self_effects(method)
+            for name, nodes in eff.writes.items():
+                offenders.append((method, name, nodes[0]))
+        key = f"{cls.name}: instance state"
+        if offenders:
+            method, name, node = offenders[0]
+            rule.fail(key, where(method, node), f"extension object field '{cls.name}.{name}' is written by {method.short} while documents are parsed; the extension object lives for the whole run, so the value leaks into the next document")
+        else:
+            rule.ok(key, "written only by __init__ / apply_configuration")
+    props = prog.cls("pymarkdown.container_blocks.parse_block_pass_properties.ParseBlockPassProperties")
+    for method in props.methods.values():
+        if method.name == "__init__":
+            continue
+        eff = self_effects(method)
+        for name, nodes in eff.writes.items():
+            rule.fail(f"{props.name}.{name}", where(method, nodes[0]), f"parser property '{name}' is written by {method.short} at run time")
+    rule.ok(f"{props.name}: fields", "written only by the constructor (pragma_lines is re-created per document, R13c)")
+
+
 def run(ctx: Context) -> None:
     r13a(ctx)
     r13b(ctx)
     r13c(ctx)
     r13d(ctx)
+    r13e(ctx)
